@@ -201,7 +201,19 @@ func c13Candidates(p c13Path) []any {
 	case "request.SizerType", "exporterhelper.RequestSizerType":
 		return []any{"items", "requests"}
 	case "component.ID":
-		return nil
+		return []any{"zpages", "nop"}
+	case "confignet.TransportType":
+		return []any{"tcp", "unix"}
+	case "[]string":
+		switch key {
+		case "cipher_suites":
+			return []any{[]any{"TLS_AES_128_GCM_SHA256"}}
+		case "curve_preferences":
+			return []any{[]any{"X25519"}}
+		case "compression_algorithms":
+			return []any{[]any{"gzip"}}
+		}
+		return []any{[]any{"a1"}, []any{"b1", "b2"}}
 	case "configopaque.String":
 		return []any{"s3cr3t"}
 	case "otlphttpexporter.EncodingType":
@@ -216,7 +228,7 @@ func c13Candidates(p c13Path) []any {
 	case reflect.Bool:
 		return []any{true, false}
 	case reflect.Int, reflect.Int32, reflect.Int64, reflect.Uint, reflect.Uint32, reflect.Uint64:
-		return []any{7, 33, 1}
+		return []any{7, 33, 1, 9000}
 	case reflect.Float64, reflect.Float32:
 		return []any{0.25, 1.5}
 	case reflect.String:
@@ -301,6 +313,9 @@ type c13Case struct {
 
 // c13Written checks the 1- or 2-deviation case: the written keys are reflected in the effective configuration and nothing
 // else changes relative to the base (same ancestors present, keys absent).
+// c13Pristine: flattened effective configuration of every component's seed, taken before any other load of this process
+var c13Pristine = map[string]map[string]string{}
+
 func c13Written(c c13Comp, paths [][]string, vals []any) (string, string, bool) {
 	with := c13Clone(c.seed).(map[string]any)
 	base := c13Clone(c.seed).(map[string]any)
@@ -333,6 +348,25 @@ func c13Written(c c13Comp, paths [][]string, vals []any) (string, string, bool) 
 	if err1 != nil || err2 != nil {
 		return "marshal-error", fmt.Sprintf("%s/%s: %v %v", c.kind, c.typ, err1, err2), true
 	}
+	// "factory defaults overlaid by exactly the keys the user wrote": the component's seed configuration, loaded again AFTER
+	// the configuration with the written keys, must be exactly what it was when this process loaded it first - nothing
+	// written in an earlier load (or for another instance) may survive in shared default values
+	if pr := c13Pristine[c.kind+"/"+c.typ]; pr != nil {
+		if cfgS, err := c13Load(c13Base(c.kind, c.typ, c13Clone(c.seed).(map[string]any))); err == nil {
+			if es, err := c13Effective(cfgS); err == nil {
+				for k, v := range es {
+					if pv, ok := pr[k]; !ok || pv != v {
+						return "setting-survived-from-an-earlier-load", fmt.Sprintf("%s/%s: after loading a configuration that wrote %v = %v, the unchanged seed configuration has %s = %s; loaded first in this process it had %q (present=%v)", c.kind, c.typ, paths, vals, k, v, pv, ok), true
+					}
+				}
+				for k, pv := range pr {
+					if _, ok := es[k]; !ok {
+						return "setting-survived-from-an-earlier-load", fmt.Sprintf("%s/%s: after loading a configuration that wrote %v, the unchanged seed configuration lacks %s (was %s)", c.kind, c.typ, paths, k, pv), true
+					}
+				}
+			}
+		}
+	}
 	root := c.kind + "::" + c.typ
 	if c.kind == "service" {
 		root = "service"
@@ -362,7 +396,28 @@ func c13Written(c c13Comp, paths [][]string, vals []any) (string, string, bool) 
 		if skip {
 			continue
 		}
-		if bv, ok := eb[k]; (!ok && v != "null") || (ok && bv != v) {
+		bv, ok := eb[k]
+		if !ok {
+			// the base configuration carries the written key's ancestors as EMPTY maps, which some sections render as absent:
+			// fall back to what the component's seed configuration had when it was first loaded
+			if pv, pok := c13Pristine[c.kind+"/"+c.typ][k]; pok {
+				bv, ok = pv, true
+			}
+		}
+		if !ok {
+			// absent from the base and from the seed: a default of a section that only materialises once one of its keys is
+			// written (the sibling itself was not written, so the statement does not constrain how it is rendered)
+			sameSection := false
+			for _, fp := range full {
+				if i := strings.LastIndex(fp, "::"); i > 0 && strings.HasPrefix(k, fp[:i]+"::") {
+					sameSection = true
+				}
+			}
+			if sameSection {
+				continue
+			}
+		}
+		if (!ok && v != "null") || (ok && bv != v) {
 			return "writing-a-key-changed-another-setting", fmt.Sprintf("%s: setting %s is %s, without the written key(s) it is %s", desc, k, v, bv), true
 		}
 	}
@@ -773,6 +828,11 @@ func TestVerif(t *testing.T) {
 	byName := map[string]c13Comp{}
 	for _, c := range comps {
 		byName[c.kind+"/"+c.typ] = c
+		if cfg, err := c13Load(c13Base(c.kind, c.typ, c13Clone(c.seed).(map[string]any))); err == nil {
+			if e, err := c13Effective(cfg); err == nil {
+				c13Pristine[c.kind+"/"+c.typ] = e
+			}
+		}
 	}
 	runCase := func(c c13Case) (string, string) {
 		switch c.Kind {
@@ -875,6 +935,10 @@ func TestVerif(t *testing.T) {
 			}
 			totalPaths++
 			found := false
+			if p.typ.Kind() == reflect.Map && p.typ.Key().Kind() == reflect.String {
+				// a map-typed setting (headers, ...): one entry is written
+				p = c13Path{append(append([]string{}, p.keys...), "x-verif"), p.typ.Elem()}
+			}
 			for _, cand := range c13Candidates(p) {
 				if _, _, loaded := c13Written(c, [][]string{p.keys}, []any{cand}); loaded {
 					found = true
